@@ -29,7 +29,7 @@ ASSUMPTIONS = ['every instance has a unique SOP Instance UID, so stores and yiel
 REQUIRED = ['oracle.get-exactly-once', 'oracle.get-yield-order', 'oracle.move-exactly-once',
             'oracle.move-progress', 'oracle.move-one-final']
 
-N = {'quick': 1600, 'thorough': 40000}
+N = {'quick': 1600, 'thorough': 200000}
 
 
 def exhaustive(tier):
